@@ -215,6 +215,93 @@ def StakeOp.method (P : Params) : StakeOp → Method Stake
   | .stake d => ZV.Contracts.stake P d
   | .cancel id => ZV.Contracts.cancelStake id
 
+/-! ### htlc.go -/
+
+abbrev Bytes := List UInt8
+
+/-- the hash functions are parameters: hash type → preimage → digest (crypto.Hash = SHA3-256, crypto.HashSHA256) -/
+abbrev HashFn := Nat → Bytes → Bytes
+
+structure HtlcE where
+  timeLocked : Addr
+  hashLocked : Addr
+  tok : Tok
+  amount : Nat
+  expiration : Int
+  hashType : Nat
+  keyMax : Nat
+  hashLock : Bytes
+  deriving DecidableEq, Repr
+
+structure Htlc where
+  entries : List (Hash × HtlcE) := []       -- prefix 1: key id
+  proxy : List (Addr × Bool) := []          -- prefix 2: explicit proxy-unlock settings
+  deriving Repr
+
+/-- definition.HashTypeDigestSizes, `none` for an unknown hash type (checkHtlc: ErrInvalidHashType) -/
+def digestSize (ty : Nat) : Option Nat :=
+  if ty = ZV.Gen.HashTypeSHA3 then some ZV.Gen.DigestSizeSHA3
+  else if ty = ZV.Gen.HashTypeSHA256 then some ZV.Gen.DigestSizeSHA256
+  else none
+
+/-- GetHtlcProxyUnlockStatus: no explicit setting = allowed -/
+def Htlc.proxyAllowed (s : Htlc) (a : Addr) : Bool := (lookup a s.proxy).getD true
+
+/-- CreateHtlcMethod.ReceiveBlock -/
+def createHtlc (hashLocked : Addr) (expiration : Int) (hashType keyMax : Nat) (hashLock : Bytes) : Method Htlc := fun s c =>
+  match digestSize hashType with
+  | none => none
+  | some n =>
+    if hashLock.length ≠ n then none
+    else if c.amount = 0 then none
+    else if c.now ≥ expiration then none
+    else some ({ s with entries := put c.hash ⟨c.sender, hashLocked, c.token, c.amount, expiration, hashType, keyMax, hashLock⟩ s.entries }, [])
+
+/-- ReclaimHtlcMethod.ReceiveBlock -/
+def reclaimHtlc (id : Hash) : Method Htlc := fun s c =>
+  if c.amount > 0 then none
+  else match lookup id s.entries with
+    | none => none
+    | some e =>
+      if e.timeLocked ≠ c.sender then none
+      else if c.now < e.expiration then none
+      else some ({ s with entries := erase id s.entries }, [⟨e.timeLocked, e.tok, e.amount, false⟩])
+
+/-- UnlockHtlcMethod.ReceiveBlock -/
+def unlockHtlc (H : HashFn) (id : Hash) (preimage : Bytes) : Method Htlc := fun s c =>
+  if c.amount > 0 then none
+  else match lookup id s.entries with
+    | none => none
+    | some e =>
+      if !s.proxyAllowed e.hashLocked && c.sender ≠ e.hashLocked then none
+      else if c.now ≥ e.expiration then none
+      else if preimage.length > e.keyMax then none
+      else if H e.hashType preimage ≠ e.hashLock then none
+      else some ({ s with entries := erase id s.entries }, [⟨e.hashLocked, e.tok, e.amount, false⟩])
+
+/-- Deny / AllowHtlcProxyUnlockMethod.ReceiveBlock -/
+def setProxyUnlock (allowed : Bool) : Method Htlc := fun s c =>
+  if c.amount ≠ 0 then none
+  else some ({ s with proxy := put c.sender allowed s.proxy }, [])
+
+/-- what the htlc contract owes in one token: Σ of its entries in that token -/
+def htlcOwed (s : Htlc) (tok : Tok) : Nat := total (fun e => if e.tok = tok then e.amount else 0) s.entries
+
+inductive HtlcOp where
+  | create (hashLocked : Addr) (expiration : Int) (hashType keyMax : Nat) (hashLock : Bytes)
+  | reclaim (id : Hash)
+  | unlock (id : Hash) (preimage : Bytes)
+  | deny
+  | allow
+  deriving Repr
+
+def HtlcOp.method (H : HashFn) : HtlcOp → Method Htlc
+  | .create a e t k l => createHtlc a e t k l
+  | .reclaim id => reclaimHtlc id
+  | .unlock id p => unlockHtlc H id p
+  | .deny => setProxyUnlock false
+  | .allow => setProxyUnlock true
+
 /-! ### vm.go: generateEmbeddedReceive / rollbackEmbedded -/
 
 abbrev Bal := List (Tok × Nat)
